@@ -6,6 +6,7 @@ pub mod c09;
 pub mod c07;
 pub mod c10;
 pub mod c11;
+pub mod c12;
 
 use crate::report::Tier;
 
@@ -21,6 +22,7 @@ pub fn run(id: &str, tier: &Tier) -> Result<i32, String> {
         "C07" => c07::c07(tier),
         "C10" => c10::c10(tier),
         "C11" => c11::c11(tier),
+        "C12" => c12::c12(tier),
         "C05" => e2_checks::c05(tier),
         _ => Err(format!("no check registered for {}", id)),
     }
